@@ -1,6 +1,10 @@
 """Worker process for C04: analyses sources sent on stdin (one JSON object per line) and answers
 with one JSON observation per line.  The hash seed is fixed by the parent through PYTHONHASHSEED.
-Keeps one long-lived loader for mode "reused"; mode "fresh" creates a new loader."""
+
+request  {"src", "mode": "fresh"|"reused", "opt": "default"|"protocols", "warm": n}
+  first does `warm` units of unrelated work (analyses a module "w" with n un-annotated
+  parameters, fresh loader, same option set; nothing of it is reported), then analyses src.
+Keeps one long-lived loader per option set for mode "reused"; mode "fresh" creates a new loader."""
 import hashlib
 import json
 import os
@@ -16,6 +20,8 @@ from pytype.imports import pickle_utils  # noqa: E402
 from pytype.pytd import serialize_ast  # noqa: E402
 import pyt  # noqa: E402
 
+OPTS = {"default": {}, "protocols": {"protocols": True}}
+
 
 def sha(b):
   if isinstance(b, str):
@@ -23,15 +29,36 @@ def sha(b):
   return hashlib.sha1(b).hexdigest()[:16]
 
 
+def filler(n):
+  """A module with exactly n un-annotated parameters (functions of at most 5 parameters)."""
+  out = []
+  k = 0
+  while n > 0:
+    m = min(n, 5)
+    k += 1
+    ps = ["a%d" % (j + 1) for j in range(m)]
+    out.append("def u%d(%s):\n  return %s\n" % (k, ", ".join(ps), ps[0]))
+    n -= m
+  return "".join(out)
+
+
 def main():
-  reused = None
+  reused = {}
   for line in sys.stdin:
     req = json.loads(line)
-    opts = pyt.options(module_name="m")
+    opt = req.get("opt", "default")
+    warm = int(req.get("warm", 0))
+    if warm:
+      wopts = pyt.options(module_name="w", **OPTS[opt])
+      try:
+        pio.generate_pyi(filler(warm), wopts, load_pytd.create_loader(wopts))
+      except Exception:  # pylint: disable=broad-except
+        pass
+    opts = pyt.options(module_name="m", **OPTS[opt])
     if req["mode"] == "reused":
-      if reused is None:
-        reused = load_pytd.create_loader(opts)
-      loader = reused
+      if opt not in reused:
+        reused[opt] = load_pytd.create_loader(opts)
+      loader = reused[opt]
     else:
       loader = load_pytd.create_loader(opts)
     try:
